@@ -1,5 +1,5 @@
 (* Props/C14.v — cw4: only the admin changes a group, and hooks hear every change truthfully. *)
-Require Import CwPlus.Params CwPlus.Base CwPlus.AMap CwPlus.Cw4Model CwPlus.Cw4Snap CwPlus.Cw4Lemmas CwPlus.Cw4Lemmas2.
+Require Import CwPlus.Params CwPlus.Base CwPlus.AMap CwPlus.Cw4Model CwPlus.Cw4Snap CwPlus.Cw4Lemmas CwPlus.Cw4Check CwPlus.Cw4Lemmas2.
 Open Scope N_scope.
 
 (* the admin, the hook list and (cw4-group) the member table / total change only in a call made by
@@ -68,6 +68,18 @@ Theorem c14_removed_hook_silent : forall st blk sender x st' ms cs,
   Forall (fun c => ~ adds_hook x c) cs -> silent_for x st' cs.
 Proof. exact removed_hook_silent. Qed.
 
+(* the step contract S_C14 (all 9 clauses) that every run evaluates on the implementation never fires on the
+   model's own accepted handler call from a reachable state (WInv), nor on a refused one, whenever the
+   observations are the model's admin, hook list, member listing and total *)
+Theorem c14_contract_never_fires_on_model : forall npool pre post st blk sender o st' ms top,
+  WInv st top -> top <= height blk -> group_obs pre st -> group_obs post st' ->
+  step st blk sender o = Ok (st', ms) ->
+  s_c14 (is_stake st) npool pre post sender o true true ms = 0.
+Proof. exact s_c14_sound. Qed.
+Theorem c14_contract_never_fires_on_refusal : forall npool pre post st sender o stake_c,
+  group_obs pre st -> group_obs post st -> s_c14 stake_c npool pre post sender o false false [] = 0.
+Proof. exact s_c14_sound_refused. Qed.
+
 Example c14_removed_hook_example :
   exists st, instantiate (mkInit false (Some (Some 0)) [(Some 1, 5)] cfg_default) (mkBlock 10 0) = Ok st /\
     let st1 := run st [(mkBlock 11 0, 0, AddHook (Some 8), true); (mkBlock 11 0, 0, AddHook (Some 9), true);
@@ -95,3 +107,5 @@ Print Assumptions c14_only_registered_told.
 Print Assumptions c14_told_nobody_or_everybody_once.
 Print Assumptions c14_registry_never_duplicates.
 Print Assumptions c14_removed_hook_silent.
+Print Assumptions c14_contract_never_fires_on_model.
+Print Assumptions c14_contract_never_fires_on_refusal.
